@@ -294,7 +294,7 @@ impl Connection {
                 now,
                 if pref_addr_cid.is_some() { 2 } else { 1 },
             ),
-            path: PathData::new(remote, allow_mtud, None, 0, now, &config),
+            path: PathData::new(remote, allow_mtud, None, 0, now, &config, rng.random()),
             path_counter: 0,
             allow_mtud,
             local_ip,
@@ -1457,7 +1457,7 @@ impl Connection {
     /// faster or reduce loss to settle on optimal values by restarting from the initial
     /// configuration in the [`TransportConfig`].
     pub fn path_changed(&mut self, now: Instant) {
-        self.path.reset(now, &self.config);
+        self.path.reset(now, &self.config, self.rng.random());
     }
 
     /// Modify the number of remotely initiated streams that may be concurrently open
@@ -3257,6 +3257,7 @@ impl Connection {
                 self.path_counter,
                 now,
                 &self.config,
+                self.rng.random(),
             )
         };
         new_path.challenge = Some(self.rng.random());
